@@ -359,9 +359,39 @@ Definition text_as_str (d : doc) : doc :=
   | DStr s => DStr s
   | DArr _ _ | DMap _ => DNull
   end.
+(* an ATTRIBUTE of an element (XML: PugiXmlAttributeScope) is written in documents as a member whose key starts with
+   '@'.  Attributes are not children: they are no items of an array scope, no keys of VisitKeys, and do not count for
+   GetEstimatedSize().  Their value is always text: a number is converted from attr.value() with the same policies as
+   element text (since /repo eaa6abb) - the EMPTY text included, which is not a number (mismatch), whereas an empty
+   element is "not loaded"; a string takes attr.as_string(), the empty string included (loaded). *)
+Definition at_sign : N := 64%N.
+Definition is_attr_key (k : dkey) : bool :=
+  match k with DKStr (c :: _) => N.eqb c at_sign | _ => false end.
+Definition attr_key (key : str) : dkey := DKStr (at_sign :: key).
+Definition text_attr_as_int (d : doc) : doc :=
+  match d with
+  | DInt z => DInt z
+  | DBool b => DStr (bool_text b)
+  | DStr s => match parse_dec s with Some z => DInt z | None => DStr s end     (* "" : not a number *)
+  | DNull | DArr _ _ | DMap _ => DStr []                                       (* written as a="" *)
+  end.
+Definition text_attr_as_str (d : doc) : doc :=
+  match d with
+  | DInt z => DStr (dec_Z z)
+  | DBool b => DStr (bool_text b)
+  | DStr s => DStr s
+  | DNull | DArr _ _ | DMap _ => DStr []
+  end.
+
 Definition as_int (a : arch) (d : doc) : doc := match text_mode a with Some _ => text_as_int d | None => d end.
 Definition as_bool (a : arch) (d : doc) : doc := match text_mode a with Some _ => text_as_bool d | None => d end.
 Definition as_str (a : arch) (d : doc) : doc := match text_mode a with Some _ => text_as_str d | None => d end.
+(* the members of an object document that are child elements (in the archives without attributes: all of them) *)
+Definition elem_members (a : arch) (l : list (dkey * doc)) : list (dkey * doc) :=
+  match text_mode a with
+  | Some _ => List.filter (fun kv => negb (is_attr_key (fst kv))) l
+  | None => l
+  end.
 
 (* Serialize on fundamental types and std::string (LoadValue of the scopes + ConvertByPolicy) *)
 Definition load_int (pl : pols) (p : Z) (d : doc) : outcome (Z * bool) :=
@@ -396,7 +426,7 @@ Definition open_array (a : arch) (pl : pols) (d : doc) : outcome (option (nat * 
       match d with
       | DNull | DStr [] => Ok (Some (O, []))
       | DArr _ l => Ok (Some (List.length l, l))
-      | DMap l => Ok (Some (List.length l, List.map snd l))
+      | DMap l => Ok (Some (List.length (elem_members a l), List.map snd (elem_members a l)))
       | _ => on_mismatch pl None
       end
   | None =>
@@ -578,7 +608,7 @@ Fixpoint load (a : arch) (pl : pols) (t : ty) {struct t} : tval t -> doc -> outc
                                            | None => Ok (v, false, tt)
                                            | Some dv => lift (load a pl t' v dv)
                                            end)
-                   (tdefault t') Clean p (map fst members) tt) ;;
+                   (tdefault t') Clean p (map fst (elem_members a members)) tt) ;;
           Ok (r, true)
       end
   | TMMap kt t' => fun p d =>
@@ -637,7 +667,7 @@ Definition load_map_mode (a : arch) (pl : pols) (mode : mapmode) (kt : keyty) (t
                                        | None => Ok (v, false, tt)
                                        | Some dv => lift (load a pl t' v dv)
                                        end)
-               (tdefault t') mode p (map fst members) tt) ;;
+               (tdefault t') mode p (map fst (elem_members a members)) tt) ;;
       Ok (r, true)
   end.
 
@@ -806,7 +836,8 @@ Definition on_finish (m : vmap) : outcome unit :=
   match m with [] => Ok tt | _ => Exc (EValidation m) end.
 
 (* ---- classes: fields (key, type, validators) in declaration order ---- *)
-Inductive leafty := LInt | LStr | LVecInt.
+(* LAttrInt / LAttrStr: a member serialized with AttributeValue (XML only) *)
+Inductive leafty := LInt | LStr | LVecInt | LAttrInt | LAttrStr.
 
 Inductive fty :=
 | FLeaf (l : leafty)
@@ -817,7 +848,8 @@ with fields :=
 | FNil
 | FCons (key : str) (t : fty) (vs : list vld) (rest : fields).
 
-Definition leafval (l : leafty) : Type := match l with LInt => Z | LStr => str | LVecInt => list Z end.
+Definition leafval (l : leafty) : Type :=
+  match l with LInt | LAttrInt => Z | LStr | LAttrStr => str | LVecInt => list Z end.
 
 Fixpoint fval (t : fty) : Type :=
   match t with
@@ -833,7 +865,7 @@ with fsval (fs : fields) : Type :=
   end.
 
 Definition leafdefault (l : leafty) : leafval l :=
-  match l with LInt => 0%Z | LStr => [] | LVecInt => [] end.
+  match l with LInt | LAttrInt => 0%Z | LStr | LAttrStr => [] | LVecInt => [] end.
 Fixpoint fdefault (t : fty) : fval t :=
   match t with
   | FLeaf l => leafdefault l
@@ -852,6 +884,8 @@ Definition view_of (t : fty) : fval t -> view :=
   | FLeaf LInt => fun v => mkView v 0 []
   | FLeaf LStr => fun v => mkView 0 (N.of_nat (List.length v)) v
   | FLeaf LVecInt => fun v => mkView 0 (N.of_nat (List.length v)) []
+  | FLeaf LAttrInt => fun v => mkView v 0 []
+  | FLeaf LAttrStr => fun v => mkView 0 (N.of_nat (List.length v)) v
   | FObj _ => fun _ => mkView 0 0 []
   | FVecObj _ => fun v => mkView 0 (N.of_nat (List.length v)) []
   | FMapObj _ => fun v => mkView 0 (N.of_nat (List.length v)) []
@@ -862,7 +896,16 @@ Definition load_leaf (a : arch) (pl : pols) (l : leafty) : leafval l -> doc -> o
   | LInt => fun p d => load_int pl p (as_int a d)
   | LStr => fun p d => load_str a pl p (as_str a d)
   | LVecInt => load a pl (TSeq SVector TInt)
+  | LAttrInt => fun p d => load_int pl p (text_attr_as_int d)
+  | LAttrStr => fun p d => load_str a pl p (text_attr_as_str d)
   end.
+
+(* the member of the object document that a field is loaded from: the child element [key], or - for a field
+   serialized with AttributeValue - the attribute [key] of the element.  The path of the field is the same in both
+   cases: GetPath() of the attribute scope is the path of its element, so an attribute and a child element of the same
+   name share their path *)
+Definition field_key (t : fty) (key : str) : dkey :=
+  match t with FLeaf LAttrInt | FLeaf LAttrStr => attr_key key | _ => DKStr key end.
 
 Definition slash : str := [47%N].
 Definition key_text (k : dkey) : str := match k with DKInt z => dec_Z z | DKStr s => s end.
@@ -943,7 +986,7 @@ Section ClassLoader.
                             Ok (x1, true, c2)
                         end
                     end)
-                 (fsdefault fs) Clean v (List.map fst members) c ;;
+                 (fsdefault fs) Clean v (List.map fst (elem_members a members)) c ;;
             Ok (r, true, c1)
         end
     end
@@ -953,7 +996,7 @@ Section ClassLoader.
     | FNil => fun _ _ c => Ok (tt, c)
     | FCons key t vs rest => fun v ms c =>
         let fpath := (path ++ slash ++ key)%list in
-        '(v1, ld, c1) <- match member (DKStr key) ms with
+        '(v1, ld, c1) <- match member (field_key t key) ms with
                          | None => Ok (fst v, false, c)
                          | Some d => load_fty t fpath (fst v) d c
                          end ;;
